@@ -921,6 +921,38 @@ func history(which string) func(r *engine.Rec) {
 				}
 			}
 		}
+		// Every pair of calls on one collator, run as a one-thread program under the scheduler: what the first
+		// call leaves behind need not show in the collator's fields (a lock it still holds does not), and a second
+		// call that waits for it forever is a scheduler fact, not a hang of the harness.
+		for _, first := range ops {
+			for _, second := range ops {
+				if !strings.HasPrefix(pairs[first.P].name, "cyclic") && !strings.HasPrefix(pairs[second.P].name, "cyclic") {
+					continue // histories without a panicking call are covered by the search above
+				}
+				var res string
+				var o rt.Outcome
+				started := false
+				ex := rt.RunOnce(rt.Config{Elide: true}, nil, []rt.ThreadSpec{{Name: "caller", Body: func() {
+					c := age.Collator[any]().Make()
+					run(c, first)
+					started = true
+					res, o = run(c, second)
+				}}})
+				r.Evals++
+				r.Transitions++
+				cs := map[string]any{"first": first, "second": second, "pairs": []string{pairs[first.P].name, pairs[second.P].name}}
+				want := fresh[second]
+				switch {
+				case len(ex.Stuck) > 0 && started:
+					r.Violation("a call on a collator never returns after an earlier call on it ended with the depth-limit panic", fmt.Sprintf("%sValues on %s, then %sValues on %s: %v", first.K, pairs[first.P].name, second.K, pairs[second.P].name, ex.SortedStuck()), cs)
+				case len(ex.Stuck) > 0:
+					r.Violation("a call on a fresh collator never returns", fmt.Sprintf("%sValues on %s: %v", first.K, pairs[first.P].name, ex.SortedStuck()), cs)
+				case res != want.res || common.PanicClass(o.Value) != common.PanicClass(want.panic):
+					r.Violation("the result of "+second.K+"Values depends on earlier calls on the same collator",
+						fmt.Sprintf("after %v: %s on %s gives %q panic=%q; a fresh collator gives %q panic=%q", first, second.K, pairs[second.P].name, res, o.Value, want.res, want.panic), cs)
+				}
+			}
+		}
 		r.States += int64(len(seen))
 		r.Distinct += int64(len(seen))
 		r.Sample(map[string]any{"history": "Rank(cyclic list) -> panic; then Rank([1 2],[1 3]) must equal a fresh collator's answer"})
